@@ -309,8 +309,9 @@ fn sched_op(variant: &'static str, end: &'static str, unsub: bool) -> Body {
     // the source emits from its own thread (hot) for observe_on, synchronously for subscribe_on
     let s = Sbj::new("subject");
     // `_gap`: the source is quiet for 2 s (virtual) after its first item - the worker idles meanwhile
+    let variant_full = variant;
     let gap = variant.ends_with("_gap");
-    let variant = variant.trim_end_matches("_gap");
+    let variant = variant.trim_end_matches("_gap").trim_end_matches("_feedback");
     let cold: Obs = Observable::create(move |ob: Observer<'static, i64>| {
       for x in [1i64, 2, 3] {
         mark(&format!("emit+ p1 n {}", x));
@@ -343,8 +344,33 @@ fn sched_op(variant: &'static str, end: &'static str, unsub: bool) -> Body {
       _ => panic!("variant"),
     };
     meta(serde_json::json!({"kind": "sched_op", "variant": variant, "observers": ["A"], "sources": {"p1": [1, 2, 3]},
-      "end1": end, "unsub": unsub, "take": if variant == "observe_on_take" { 2 } else { 99 }}));
-    let sub = subscribe_rec(&o, "A");
+      "end1": end, "unsub": unsub, "take": if variant == "observe_on_take" { 2 } else { 99 },
+      "feedback": if variant_full.ends_with("_feedback") { 5 } else { 0 }}));
+    let feedback = variant_full.ends_with("_feedback");
+    let sub = if feedback {
+      // the subscriber pushes one more item into the source from its callback (on the worker thread)
+      let s_fb = s.clone();
+      o.subscribe(
+        move |x: i64| {
+          mark(&format!("cb+ A n {}", x));
+          if x == 1 {
+            s_fb.next("fb", 5);
+          }
+          mark(&format!("cb- A n {}", x));
+        },
+        move |e: RxError| {
+          let v = e.downcast_ref::<i64>().copied().unwrap_or(-1);
+          mark(&format!("cb+ A e {}", v));
+          mark(&format!("cb- A e {}", v));
+        },
+        move || {
+          mark("cb+ A c 0");
+          mark("cb- A c 0");
+        },
+      )
+    } else {
+      subscribe_rec(&o, "A")
+    };
     let h1 = if hot && gap {
       let s = s.clone();
       Some(spawn(move || {
@@ -370,6 +396,12 @@ fn sched_op(variant: &'static str, end: &'static str, unsub: bool) -> Body {
     }
     if let Some(h) = h1 {
       let _ = h.join();
+    }
+    if feedback {
+      // the source never ends: let the worker drain (virtual time passes only when every task is blocked),
+      // then leave so that the execution finishes
+      vf::sleep(Duration::from_secs(1));
+      sub.unsubscribe();
     }
   })
 }
@@ -740,7 +772,7 @@ pub fn catalogue() -> Vec<(String, Vec<&'static str>)> {
   }
   v.push(("scheduler:1:1".to_string(), vec!["C08", "C07"]));
   v.push(("scheduler_idle".to_string(), vec!["C08", "C07"]));
-  for (var, e) in [("observe_on_gap", "c"), ("observe_on_map_gap", "e"), ("subscribe_on_observe_on_gap", "c")] {
+  for (var, e) in [("observe_on_gap", "c"), ("observe_on_map_gap", "e"), ("subscribe_on_observe_on_gap", "c"), ("observe_on_feedback", "-"), ("observe_on_map_feedback", "-")] {
     v.push((format!("sched_op:{}:{}:0", var, e), vec!["C09", "C07", "C15"]));
   }
   v.push(("scheduler_abort_race".to_string(), vec!["C08", "C07"]));
